@@ -71,6 +71,7 @@ class Outcome:
     value: Optional[V]
     state: State
     msg: str = ""
+    ctx: object = None
 
     @property
     def pc(self):
@@ -578,6 +579,16 @@ class Executor:
                         raise Infeasible("index out of bounds on a path that passed the bounds check")
                     return items.elems[n]
                 return self.ite_select(items.elems, iv)
+            if isinstance(items, SymArr):
+                if not items.elems:
+                    raise Infeasible("index into an empty bounded array")
+                ie = z3.simplify(iv.e)
+                if is_concrete(ie):
+                    n = ie.as_long()
+                    if n >= len(items.elems):
+                        raise Infeasible("index beyond capacity")
+                    return items.elems[n]
+                return self.ite_select(items.elems, iv)
             if isinstance(items, SymSeq):
                 return Opaque(self.elem_fn()(items.base, self.to_bv64(iv)), items.elem_ty)
             if isinstance(items, Bytes):
@@ -954,6 +965,8 @@ class Executor:
         if isinstance(t, Arr):
             return self.mk_int(len(t.elems), 64, False)
         if isinstance(t, SymSeq):
+            return BV(t.length, 64, False)
+        if isinstance(t, SymArr):
             return BV(t.length, 64, False)
         if isinstance(t, (Bytes, Str)):
             return BV(z3.Length(t.s), 64, False)  # int-flavoured usize (lengths are assumed < 2^63)
